@@ -289,9 +289,9 @@ impl<V> DynPred<V> {
     pub fn new<F: Fn(&V) -> bool>(f: F) -> (r: Self)
         requires
             forall|v: V| #[trigger] f.requires((&v,)),
-            forall|v: V| !(#[trigger] f.ensures((&v,), true) && f.ensures((&v,), false)),
         ensures
-            forall|v: V| #[trigger] (r.p@)(v) <==> f.ensures((&v,), true),
+            // `p(v)` is the value the (pure, deterministic) closure returns on `v`
+            forall|v: V| f.ensures((&v,), #[trigger] (r.p@)(v)),
     { unimplemented!() }
     #[verifier::external_body]
     pub fn call(&self, v: &V) -> (b: bool)
